@@ -45,7 +45,7 @@ fn parse_stored(src: &[u8], n: usize, dst: &mut [u8]) -> Option<(usize, bool, us
     None
 }
 
-fn stored_one_call<const N: usize, const OUT: usize>() {
+fn stored_one_call<const N: usize, const OUT: usize, const KMAX: usize>() {
     let mut w = [0u8; 2 << WB0];
     let mut p = [0u16; 1 << WB0];
     let mut h = [0u16; HASH_SIZE];
@@ -55,7 +55,22 @@ fn stored_one_call<const N: usize, const OUT: usize>() {
     state.status = Status::Busy;
     state.window_size = 2 << WB0;
     state.last_flush = -2;
+    // state left behind by an earlier Z_NO_FLUSH call: k bytes buffered in the window, not yet emitted
+    let buffered: [u8; 4] = kani::any();
+    let k: usize = kani::any();
+    kani::assume(k <= KMAX && KMAX <= 4);
+    let mut i = 0;
+    while i < 4 {
+        if i < k {
+            state.window.filled_mut()[i] = buffered[i];
+        }
+        i += 1;
+    }
+    state.strstart = k;
+    state.insert = k;
+    state.block_start = 0;
     let mut stream = typed_stream(unsafe { &mut *(&mut state as *mut State) });
+    stream.total_in = k as _;
     let input: [u8; N] = kani::any();
     let n: u32 = kani::any();
     kani::assume(n as usize <= N);
@@ -81,7 +96,7 @@ fn stored_one_call<const N: usize, const OUT: usize>() {
     // cursors and counters account exactly for the bytes moved (C15)
     assert!(stream.avail_out <= avail_out && stream.avail_in <= n);
     assert!(stream.total_out as usize == produced);
-    assert!(stream.total_in as usize == consumed);
+    assert!(stream.total_in as usize == k + consumed);
     assert!(stream.next_in as usize == input.as_ptr() as usize + consumed);
     assert!(stream.next_out as usize == out.as_ptr() as usize + produced);
     // nothing written beyond what was reported as produced (symbolic index instead of a loop)
@@ -92,17 +107,19 @@ fn stored_one_call<const N: usize, const OUT: usize>() {
     let in_window = stream.state.strstart as isize - stream.state.block_start;
     assert!(in_window >= 0);
     // everything consumed is either in the output, pending, or still buffered in the window
-    let mut back = [0u8; N];
+    let mut back = [0u8; N + 4];
+    let total = k + n as usize; // everything supplied so far
+    let expect_at = |j: usize| -> u8 { if j < k { buffered[j] } else { input[j - k] } };
     match bs {
         BlockState::FinishDone => {
             assert!(matches!(flush, DeflateFlush::Finish) && consumed == n as usize && pending == 0);
             let r = parse_stored(&out, produced, &mut back);
-            assert!(r == Some((n as usize, true, produced)));
+            assert!(r == Some((total, true, produced)));
             let j: usize = kani::any();
-            kani::assume(j < n as usize);
-            assert!(back[j] == input[j]);
+            kani::assume(j < total);
+            assert!(back[j] == expect_at(j));
             // size: one header per block, never more than deflateBound for level 0 (C07)
-            assert!(produced <= bound(Some(&mut stream), n as usize));
+            assert!(k != 0 || produced <= bound(Some(&mut stream), n as usize));
         }
         BlockState::FinishStarted => {
             assert!(matches!(flush, DeflateFlush::Finish) && consumed == n as usize && stream.avail_out == 0);
@@ -112,12 +129,16 @@ fn stored_one_call<const N: usize, const OUT: usize>() {
             assert!(!matches!(flush, DeflateFlush::NoFlush | DeflateFlush::Finish));
             assert!(consumed == n as usize && in_window == 0 && pending == 0);
             let r = parse_stored(&out, produced, &mut back);
-            assert!(r == Some((n as usize, false, produced)));
+            assert!(r == Some((total, false, produced)), "flush point: everything supplied so far is decodable from the output");
             let j: usize = kani::any();
-            kani::assume(j < n as usize);
-            assert!(back[j] == input[j]);
+            kani::assume(j < total);
+            assert!(back[j] == expect_at(j));
         }
-        BlockState::NeedMore => {}
+        BlockState::NeedMore => {
+            // within these bounds everything fits the window and the pending buffer, so a Finish call always at least
+            // starts the final block (progress: repeated Finish calls terminate)
+            assert!(!matches!(flush, DeflateFlush::Finish), "Finish made no progress towards the end of the stream");
+        }
     }
     kani::cover!(matches!(bs, BlockState::FinishDone) && n as usize == N);
     kani::cover!(matches!(bs, BlockState::FinishStarted));
@@ -133,5 +154,16 @@ fn stored_one_call<const N: usize, const OUT: usize>() {
 #[kani::stub(core::panicking::panic_nounwind, stub_pn)]
 #[kani::stub(core::panicking::panic_nounwind_fmt, stub_pnf)]
 fn kd6_stored_one_call() {
-    stored_one_call::<6, 26>();
+    stored_one_call::<6, 26, 0>();
+}
+
+/// the same call from the state an earlier Z_NO_FLUSH call leaves behind (0..=3 bytes buffered in the window):
+/// covers flushes that have to emit previously buffered input and complete over several calls (C11, C06)
+#[kani::proof]
+#[kani::unwind(10)]
+#[kani::stub(core::fmt::write, stub_fmt_write)]
+#[kani::stub(core::panicking::panic_nounwind, stub_pn)]
+#[kani::stub(core::panicking::panic_nounwind_fmt, stub_pnf)]
+fn kd6_stored_resume() {
+    stored_one_call::<3, 20, 3>();
 }
